@@ -13,7 +13,8 @@ RULE = (
     "tee children may also be closed/dropped early in a generated order) of 0-8 items (Items with keys 0..3 so that "
     "equal-yet-distinguishable items are frequent; other value profiles where the tool allows), "
     "all valid parameters and table-driven callables; the asynchronous tool and the synchronous "
-    "stdlib function are run on separately materialised copies and the consumer-visible event "
+    "stdlib function (and, in the pipelines-* shards, compositions T3(T2(T1(source))) of 2-3 tools against the "
+    "same stdlib composition) are run on separately materialised copies and the consumer-visible event "
     "sequences (item identity signature / stop / exception type) are compared. "
     "Non-trivial: some source has >= 2 items AND (a key tie among distinguishable items OR unequal "
     "source lengths OR a non-default parameter/callable). Distinct = hash of the canonical JSON case."
@@ -87,9 +88,27 @@ def cases(draw, name, tier):
     return case
 
 
+def check_pipeline(case):
+    from ..pipelines import run_both
+
+    outcome, events_s, src, ctx_a, ctx_s, released, close_errors = run_both(case)
+    events_a = expect_return(outcome, "C01/pipeline")
+    d = first_diff(events_a, events_s)
+    if d is not None:
+        i, x, y = d
+        raise Violation(f"C01/pipeline/{classify_diff(x, y)}",
+                        f"stages={case['stages']} event {i}: async={x} stdlib={y}")
+    if close_errors:
+        raise Violation("C01/pipeline/close-raises", f"stages={case['stages']} {close_errors[0]}")
+
+
 def shards(tier):
     n = 2000
-    return [
+    from ..pipelines import pipelines
+
+    extra = [Shard(f"pipelines-{i}", check_pipeline, strategy=pipelines(3 if tier == "quick" else 4), n=1500,
+                   nontrivial=lambda c: len(c["items"]) >= 2, thorough_mult=15) for i in range(4)]
+    return extra + [
         Shard(name, check, strategy=cases(name, tier),
               n=n, nontrivial=nontrivial, classify=classify, thorough_mult=15)
         for name in ITER_TOOLS
